@@ -71,7 +71,7 @@ def P(name, **kw):
 
 
 # contracts written but not closing within the time budget (never part of a registered check): the trailing-blank strip of tokenize()
-WIP = ['tokenize_strip']
+WIP = []
 
 
 def select(names):
@@ -108,13 +108,13 @@ def all_proofs():
           assumed=['parse_ignored / parse_macro: arbitrary effect on the cursor and the chunk (views that only record the call)'],
           mutants=[('macro_before_ignored', r'(?s)(   // If it is turned off.*?\n   \}\n)(   log_rule_B\("disable_processing_nl_cont"\);.*?\n   \}\n)', r'\2\1', 'postcondition'),
                    ('ignored_always', r'if \(cpd.unc_off\)', 'if (true)', 'postcondition')]),
-        P('tokenize_strip', impl='contracts/shared/strip.impl.cpp', enforce='tokenize_strip/tokenize_strip_contract', canaries=2, rules={}, split=12,
-          loops=[dict(fn='tokenize_strip', id=0, vars=['chunkp', 'num_stripped'],
-                      assigns='num_stripped, DI_size(UT_chars(Chunk_m_str(chunkp)))',
-                      inv='UT_size(Chunk_m_str(chunkp)) <= %s && num_stripped >= 0 && (unsigned long)num_stripped == %s - UT_size(Chunk_m_str(chunkp))' % (E('UT_size(Chunk_m_str(chunkp))'), E('UT_size(Chunk_m_str(chunkp))')) +
-                          ' && ((g_strip_K >= UT_size(Chunk_m_str(chunkp)) && g_strip_K < %s) ==> (UT_at(Chunk_m_str(chunkp), g_strip_K) == 32 || UT_at(Chunk_m_str(chunkp), g_strip_K) == 9))' % E('UT_size(Chunk_m_str(chunkp))') +
-                          ' && (UT_size(Chunk_m_str(chunkp)) < %s ==> (UT_size(Chunk_m_str(chunkp)) == 0 || UT_at(Chunk_m_str(chunkp), UT_size(Chunk_m_str(chunkp)) - 1) != 92))' % E('UT_size(Chunk_m_str(chunkp))'),
-                      decreases='UT_size(Chunk_m_str(chunkp))')],
+        P('tokenize_strip', impl='contracts/shared/strip.impl.cpp', enforce='tokenize_strip/tokenize_strip_contract', canaries=2, rules={},
+          loops=[dict(fn='tokenize_strip', id=0, vars=['num_stripped'],
+                      assigns='num_stripped, DI_size(UT_chars(Chunk_m_str(SC)))',
+                      inv='UT_size(Chunk_m_str(SC)) <= %s && num_stripped >= 0 && (unsigned long)num_stripped == %s - UT_size(Chunk_m_str(SC))' % (E('UT_size(Chunk_m_str(SC))'), E('UT_size(Chunk_m_str(SC))')) +
+                          ' && ((g_strip_K >= UT_size(Chunk_m_str(SC)) && g_strip_K < %s) ==> (UT_at(Chunk_m_str(SC), g_strip_K) == 32 || UT_at(Chunk_m_str(SC), g_strip_K) == 9))' % E('UT_size(Chunk_m_str(SC))') +
+                          ' && (UT_size(Chunk_m_str(SC)) < %s ==> (UT_size(Chunk_m_str(SC)) == 0 || UT_at(Chunk_m_str(SC), UT_size(Chunk_m_str(SC)) - 1) != 92))' % E('UT_size(Chunk_m_str(SC))'),
+                      decreases='UT_size(Chunk_m_str(SC))')],
           functions=['tokenize.cpp:tokenize (fragment: trailing-blank strip of the main loop)', 'unc_text.cpp:UncText::pop_back'],
           expect=['tokenize_strip_contract.postcondition', 'loop_decreases'],
           mutants=[('backslash_guard_preproc_only', r'if \(  \(chunk.GetStr\(\).size\(\) > 1\)', 'if (  cpd.in_preproc != CT_NONE && (chunk.GetStr().size() > 1)', 'postcondition|loop_invariant'),
